@@ -127,7 +127,7 @@ TEXT = {
           "reducible returned factor is reported with the block that divides it. Not formalised: the irreducibility criteria and the "
           "use of unique factorization.",
   "design_ref": "5.5",
-  "note": "KNOWN FINDING D28 (not repaired): lp_upolynomial_factor over Z with a non-monic primitive part returns reducible factors; found and fixed: two memory leaks in the Z factorization",
+  "note": "found and fixed: lp_upolynomial_factor over Z with a non-monic primitive part returned reducible factors (former known finding D28, repaired by the monic transformation); two memory leaks in the Z factorization",
   "technique": "Lean 4 proved certificate soundness (product homomorphism, Bezout => squarefree / coprime) + per-output validation of the C results",
  },
  "C16": {
